@@ -14,6 +14,7 @@ RULE = (
     "on target markets with p0 = get_market_price(0) read when the round returns (1e-9 relative skip band "
     "around the line); is_running is read at every step-begin record. Case = one run; distinct = (seed, rule "
     "table); non-trivial = run with at least one halt."
+    ' Since the seeded rounds: a large-move profile (rates 0.25..1.5, quotes at 0.3..4.2 x the time-0 price) in which the line passes +100%, rules set up twice, forced rounds and refused requests in the direct histories.'
 )
 ASSUMPTIONS = [
     "halts so far are counted per rule (a multi-target rule shares the count)",
